@@ -369,6 +369,7 @@ pub fn write_l32_inputs(seed: u64, count: u64, which: &str, file: &PathBuf) {
             }
             2 => crate::gen::g_b(fmt, &r, lim),
             3 => crate::gen::g_p(fmt, &r),
+            4 => crate::gen::g_t(fmt, &r),
             _ => crate::gen::mixed(fmt, &r, lim),
         };
         if c.int.len() + c.frac.len() > 1000 {
